@@ -104,6 +104,9 @@ structure St where
   -- concurrent specification only: SKIP tombstones may sit in the mpsc-bounded ticket window (number of send overlaps
   -- since the consumer last walked to the end of the ring with no send in flight; see `retire`, `mbFlush`, `microSpur`)
   tomb : Nat := 0
+  -- concurrent specification only: a oneshot sender is between its CAS EMPTY→WRITING and its swap →SENT (`STATE_WRITING`;
+  -- receivers and `is_sent` still see "nothing sent", competing senders see "already sent")
+  osw : Bool := false
   -- ghost
   created : List Val := []
   sentOk : List Val := []
